@@ -674,6 +674,7 @@ UF = {
     "frexp": _u_frexp, "ldexp": _u_ldexp,
     "cos": _u_trig("cos"), "sin": _u_trig("sin"), "arccos": _u_arccos, "log": _u_log,
     "remainder": _u_mod, "mod": _u_mod,
+    "spacing": lambda x: Alg.const(0),   # idealised tolerance: rank = number of non-zero singular values (DESIGN 2.5)
 }
 
 
@@ -864,7 +865,10 @@ def _reduce(a, f, axis, keepdims, identity, shadow_fn=None):
         shp = [1 if i in axes else p.shape[i] for i in range(p.ndim)]
         res = res.reshape(shp)
     if res.ndim == 0:
-        return res[()]
+        v = res[()]
+        if isinstance(v, BoolCount) and not v.items:
+            return _np.int_(v.base)
+        return v
     return SymArray(res, vd)
 
 
@@ -923,17 +927,28 @@ def _argmax_1d(items):
         vals = [x.cval() for x in xs]
         return vals.index(max(vals))
     P = cur()
+    # candidates: first occurrence of each syntactically distinct value (a later equal value can never be the first maximum)
+    seen = {}
+    cand = []
+    for k, x in enumerate(xs):
+        key = (x.n.key(), None if x.d is None else x.d.key(), x.special)
+        if key in seen:
+            continue
+        seen[key] = k
+        cand.append(k)
+    if len(cand) == 1:
+        return cand[0]
     P.tier2_depth += 1
     try:
         opts = []
-        for k in range(n):
+        for k in cand:
             c = TRUE
-            for j in range(n):
+            for j in cand:
                 if j == k:
                     continue
                 c = c & ((xs[k] > xs[j]) if j < k else (xs[k] >= xs[j]))
             opts.append(c)
-        return decide_index(opts)
+        return cand[decide_index(opts)]
     finally:
         P.tier2_depth -= 1
 
